@@ -39,6 +39,9 @@ type SFile struct {
 	CRLF bool `json:"crlf,omitempty"`
 	// RootObj: the root is {"type":"object", properties...} and carries marker mk_<tag>.
 	RootObj bool `json:"root_obj"`
+	// ArgVia: when the file is named on the command line it is named by this path (relative to the root) instead of
+	// Rel() - through a symbolic link to its directory, say
+	ArgVia string `json:"arg_via,omitempty"`
 }
 
 func (f *SFile) Rel() string { return filepath.Join(f.Dir, f.Base) }
@@ -258,8 +261,14 @@ func (w *World) Spec(prefix string, ko *KeyOrder, args []string) simrt.Spec {
 // ArgFor spells file f as a command-line argument relative to cwd.
 func (w *World) ArgFor(f *SFile, spelling string) string {
 	abs := filepath.Join(w.Root, f.Rel())
+	if f.ArgVia != "" {
+		abs = filepath.Join(w.Root, f.ArgVia)
+	}
 	switch spelling {
 	case "abs":
+		if f.ArgVia != "" {
+			return filepath.Join(RootPH, f.ArgVia)
+		}
 		return filepath.Join(RootPH, f.Rel())
 	case "dot":
 		r, err := filepath.Rel(w.Cwd, abs)
@@ -343,7 +352,35 @@ func GenWorldOpt(t *rapid.T, maxFiles int, recCombo, http bool) *World {
 
 // GenWorldC10 additionally draws the discriminating layouts of C10: the same
 // relative spelling denoting two different files, and extension shadowing.
+// symDirWorld: a document that is named on the command line THROUGH A SYMBOLIC LINK TO ITS DIRECTORY (api ->
+// shared/api) and leaves that directory with "..": "../common.json" is /w/common.json read as a URI reference and
+// /w/shared/common.json as the file system walks it. Both exist, so the run succeeds under either reading, and that
+// reference is not judged. What is judged is the reference "./common.json" of order.json at the top, which has no link
+// anywhere near it: it denotes /w/common.json whatever was loaded before (seeded change s104: the loader follows the
+// link, the cache in front of it still computes the textual name).
+func symDirWorld() *World {
+	str := Obj{{"type", "string"}}
+	mk := func(tag, dir, base string, props Obj) *SFile {
+		f := &SFile{Tag: tag, Dir: dir, Base: base, RootObj: true}
+		f.Doc = Obj{{"type", "object"}, {"properties", append(Obj{{"mk_" + tag, str}}, props...)}}
+		return f
+	}
+	t0 := mk("t0", "shared/api", "main.json", Obj{{"t0up", Obj{{"$ref", "../common.json"}}}})
+	t0.ArgVia = "api/main.json"
+	t1 := mk("t1", "", "order.json", Obj{{"t1r1", Obj{{"$ref", "./common.json"}}}})
+	t1.Refs = []RefUse{{FromTag: "t1", Prop: "t1r1", Ref: "./common.json", ToTag: "t2", Spelling: "dot-after-symlinked-dir"}}
+	t2 := mk("t2", "", "common.json", Obj{{"t2id", Obj{{"type", "integer"}}}})
+	t3 := mk("t3", "shared", "common.json", Obj{{"t3uuid", str}})
+	t3.Doc = append(t3.Doc, KV{"required", []any{"t3uuid"}})
+	w := &World{Root: "/w", Cwd: "/w", Files: []*SFile{t0, t1, t2, t3}, Links: []Link{{Path: "api", Target: "shared/api"}},
+		Opts: Options{Package: "example.com/m/main"}}
+	return w
+}
+
 func GenWorldC10(t *rapid.T, maxFiles int) *World {
+	if rapid.IntRange(0, 11).Draw(t, "symdir") == 0 {
+		return symDirWorld()
+	}
 	comboDefs, SameNameTwins = false, true
 	defer func() { comboDefs, SameNameTwins = true, false }()
 	return genWorld(t, maxFiles, false, false, true)
@@ -531,6 +568,12 @@ func genWorld(t *rapid.T, maxFiles int, recCombo, http, shadows bool) *World {
 			uf.Base = "u0f.yaml"
 		}
 		w.Files = append(w.Files, uf)
+		if rapid.Bool().Draw(t, "composedroot") {
+			// ... and one whose root has neither "type" nor "properties": it is an allOf over one of its own definitions
+			// and an inline branch. Referenced as a whole file it is still the object those branches describe (seeded
+			// change s103: "a typeless root is an object only if it lists properties" made it interface{})
+			w.Files = append(w.Files, &SFile{Tag: "u1", Base: "u1f.json", Defs: []string{"U1Da"}})
+		}
 	}
 	if feat.WebDoc {
 		yaml := rapid.IntRange(0, 3).Draw(t, "webyaml") == 0
@@ -882,6 +925,10 @@ func drawOptions(t *rapid.T, w *World, npkg int) Options {
 		o.Package = "example.com/m/main/v1"
 	}
 	v2pkg := npkg > 1 && !w.Feat.SamePkgBase && b("v2pkg", 30)
+	// one mapped group may have an output of its own but NO package of its own: "--schema-output ID=FILE" alone puts the
+	// schema into FILE, in the default package (-p); the file sits next to the default output, as files of one package do
+	// (seeded change s102: a mapping table whose entries are lost when an id has an output but no package)
+	outOnly := npkg > 1 && !w.Feat.SamePkgBase && !v2pkg && b("outonly", 25)
 	maxPkg := 0 // cross-package references go from lower to higher group numbers: the highest group is the one others share
 	for _, f := range w.Files {
 		maxPkg = max(maxPkg, f.Pkg)
@@ -907,13 +954,20 @@ func drawOptions(t *rapid.T, w *World, npkg int) Options {
 				// bytes of every file must still not depend on the order the outputs are visited in
 				pp = "example.com/m/my-pk1"
 			}
-			if hasKey(o.SchemaPkg, f.ID) {
+			if hasKey(o.SchemaPkg, f.ID) || hasKey(o.SchemaOut, f.ID) {
 				continue // a second document with the same id: one mapping
+			}
+			if outOnly && f.Pkg == 1 {
+				o.SchemaOut = append(o.SchemaOut, Pair{f.ID, "out/main/pk1.go"})
+				continue
 			}
 			o.SchemaPkg = append(o.SchemaPkg, Pair{f.ID, pp})
 			o.SchemaOut = append(o.SchemaOut, Pair{f.ID, fmt.Sprintf("out/pk%d/gen.go", f.Pkg)})
 		}
 		if (o.Output == "" || o.Output == "-") && !b("stdoutdefault", 30) {
+			o.Output = "out/main/gen.go"
+		}
+		if outOnly {
 			o.Output = "out/main/gen.go"
 		}
 		if SelfNamedDefs && b("allstdout", 10) {
@@ -999,6 +1053,13 @@ func (g *genCtx) genDoc() {
 			props = append(props, KV{"u0kids", Obj{{"type", "array"}, {"items", self}}}, KV{"u0next", self})
 		}
 		f.Doc = Obj{{"$schema", "http://json-schema.org/draft-07/schema#"}, {"title", "Title u0"}, {"properties", props}}
+		return
+	}
+	if f.Tag == "u1" {
+		str := Obj{{"type", "string"}}
+		f.Doc = Obj{{"$schema", "http://json-schema.org/draft-07/schema#"}, {"title", "Title u1"},
+			{"allOf", []any{Obj{{"$ref", RootPH + "/u1f.json#/$defs/U1Da"}}, Obj{{"properties", Obj{{"mk_u1", str}, {"cb_u1_root", str}}}, {"required", []any{"mk_u1"}}}}},
+			{"$defs", Obj{{"U1Da", Obj{{"type", "object"}, {"properties", Obj{{"mk_u1_U1Da", str}, {"u1val", Obj{{"type", "integer"}, {"minimum", 1}}}}}, {"required", []any{"u1val"}}}}}}}
 		return
 	}
 	doc := Obj{}
@@ -1556,6 +1617,14 @@ func (g *genCtx) forcedRefs(props Obj) Obj {
 		if uf := g.w.File("u0"); uf != nil {
 			if rel, err := filepath.Rel("/"+f.Dir, "/"+uf.Base); err == nil {
 				add(rel, "u0", "", "untypedroot")
+			}
+		}
+		if uf := g.w.File("u1"); uf != nil {
+			if rel, err := filepath.Rel("/"+f.Dir, "/"+uf.Base); err == nil {
+				g.nprop++
+				ru := RefUse{FromTag: f.Tag, Prop: fmt.Sprintf("%sr%d", f.Tag, g.nprop), Ref: rel, ToTag: "u1", Spelling: "composedroot", Combo: "allOf", CB: "cb_u1_root"}
+				props = append(props, KV{ru.Prop, Obj{{"$ref", ru.Ref}}})
+				f.Refs = append(f.Refs, ru)
 			}
 		}
 	}
